@@ -11,7 +11,7 @@ NOT_APPLICABLE = {
     "C04": "statistical claim (expected FDP over a distribution of datasets under exchangeability): not expressible "
            "as a single-run function contract; its structural premises are decided under C01/C02/C03 (DESIGN.md 5)",
 }
-for _p in ["C03", "C15", "C18"]:
+for _p in ["C03", "C15"]:
     NOT_APPLICABLE[_p] = _PENDING
 
 CHECKS = {
@@ -270,5 +270,22 @@ CHECKS = {
                 "key is assumed not to occur); strings abstract",
         "technique": "sidecar contract with loop invariant over an element sequence and record fields; z3/cvc5; "
                      "generated PepXML documents as bounded stand-in",
+    },
+    "C18": {
+        "category": "other",
+        "text": "Deductive core + bounded stand-in. Proved for all inputs (unbounded), over character sequences: "
+                "_shuffle_proteins (three nested loops incl. the retry loop and the per-length permutation cache) - "
+                "every decoy is named prefix + name, has the target's length, keeps the first and last residue of "
+                "every enzymatic peptide in place, and is the target read along a position map with a LEFT INVERSE "
+                "(injective, hence the same residue composition; the pigeonhole step from injective to bijective is "
+                "not mechanised); every cached permutation is an injective map of range(L). The exact reversal of "
+                "peptide interiors, identical cleavage sites (regex), concatenated mode and the FASTA writer/reader "
+                "round trip are decided by the bounded run (make_decoys + re-reading on generated FASTA files incl. "
+                "all sequences of length <= 6 over 5 letters).",
+        "design_ref": "DESIGN.md 4.C18",
+        "note": "a string = its character list; np.random.permutation / np.flip assumed; _cleavage_sites through its "
+                "verified contract; global RNG state is an input (any state)",
+        "technique": "sidecar contract with ghost position maps (defseq), loop invariants, marker-triggered "
+                     "sortedness; z3/cvc5; generated FASTA files as bounded stand-in",
     },
 }
